@@ -194,4 +194,173 @@ theorem cscToDense_shape (c : Csc) (n m : Nat) (h : c.shape = [n, m]) :
     (cscToDense c).shape = [n, m] ∧ (cscToDense c).data.length = n * m := by
   simp [cscToDense, h]
 
+/-! ### CSC: re-sparsifying keeps the dense values -/
+
+theorem ratNat_natRat (k : Nat) : ratNat (natRat k) = k := by
+  simp [ratNat, natRat]
+
+theorem natRat_inj (a b : Nat) : natRat a = natRat b ↔ a = b := by
+  constructor
+  · intro h
+    have := congrArg ratNat h
+    simpa [ratNat_natRat] using this
+  · intro h; rw [h]
+
+theorem sumRat_append (a b : List Rat) : sumRat (a ++ b) = sumRat a + sumRat b := by
+  induction a with
+  | nil => simp [sumRat]
+  | cons x a ih => simp [sumRat, ih, add_assoc]
+
+/-- offset of sublist `j` inside the flattened list -/
+def offset {α} (L : List (List α)) (j : Nat) : Nat := ((L.take j).map List.length).sum
+
+theorem cumul_getD (ls : List Nat) (acc j : Nat) (hj : j ≤ ls.length) :
+    (cumul acc ls).getD j 0 = acc + (ls.take j).sum := by
+  induction ls generalizing acc j with
+  | nil =>
+    have : j = 0 := by simpa using hj
+    subst this; simp [cumul]
+  | cons l r ih =>
+    cases j with
+    | zero => simp [cumul]
+    | succ j =>
+      have hj' : j ≤ r.length := by simpa using hj
+      have h2 := ih (acc + l) j hj'
+      simp only [List.getD_eq_getElem?_getD] at h2
+      simp [cumul, h2, Nat.add_assoc]
+
+theorem flatten_getElem? {α} (L : List (List α)) (j q : Nat) (hj : j < L.length)
+    (hq : q < (L.getD j []).length) :
+    L.flatten[offset L j + q]? = (L.getD j [])[q]? := by
+  induction L generalizing j with
+  | nil => simp at hj
+  | cons l r ih =>
+    cases j with
+    | zero =>
+      simp only [List.getD_cons_zero] at hq
+      simp [offset, List.getElem?_append_left hq]
+    | succ j =>
+      have hj' : j < r.length := by simpa using hj
+      simp only [List.getD_cons_succ] at hq ⊢
+      have := ih j hj' hq
+      simp only [offset] at this ⊢
+      simp only [List.take_succ_cons, List.map_cons, List.sum_cons, List.flatten_cons]
+      rw [Nat.add_assoc, List.getElem?_append_right (by omega)]
+      simpa using this
+
+
+theorem offset_succ {α} (L : List (List α)) (j : Nat) (hj : j < L.length) :
+    offset L (j + 1) = offset L j + (L.getD j []).length := by
+  induction L generalizing j with
+  | nil => simp at hj
+  | cons l r ih =>
+    cases j with
+    | zero => simp [offset]
+    | succ j =>
+      have hj' : j < r.length := by simpa using hj
+      have := ih j hj'
+      simp only [offset] at this ⊢
+      simp only [List.take_succ_cons, List.map_cons, List.sum_cons, List.getD_cons_succ] at this ⊢
+      omega
+
+def pick (i : Nat) (e : Nat × Rat) : Rat := if e.1 = i then e.2 else 0
+
+theorem colEntries_succ (n m : Nat) (d : List Rat) (j : Nat) :
+    colEntries (n + 1) m d j = colEntries n m d j ++
+      (if d.getD (n * m + j) 0 = 0 then [] else [(n, d.getD (n * m + j) 0)]) := by
+  simp only [colEntries, List.range_succ, List.filterMap_append]
+  congr 1
+  simp only [List.filterMap_cons, List.filterMap_nil]
+  generalize d.getD (n * m + j) 0 = x
+  by_cases h : x = 0 <;> simp [h]
+
+theorem sum_pick_colEntries_ge (n m : Nat) (d : List Rat) (j i : Nat) (h : n ≤ i) :
+    sumRat ((colEntries n m d j).map (pick i)) = 0 := by
+  induction n with
+  | zero => simp [colEntries, sumRat]
+  | succ n ih =>
+    rw [colEntries_succ, List.map_append, sumRat_append, ih (by omega)]
+    generalize d.getD (n * m + j) 0 = x
+    by_cases hx : x = 0
+    · simp [hx, sumRat]
+    · have : n ≠ i := by omega
+      simp [hx, sumRat, pick, this]
+
+theorem sum_pick_colEntries (n m : Nat) (d : List Rat) (j i : Nat) (h : i < n) :
+    sumRat ((colEntries n m d j).map (pick i)) = d.getD (i * m + j) 0 := by
+  induction n with
+  | zero => omega
+  | succ n ih =>
+    rw [colEntries_succ, List.map_append, sumRat_append]
+    by_cases hin : i < n
+    · rw [ih hin]
+      have : n ≠ i := by omega
+      generalize d.getD (n * m + j) 0 = x
+      by_cases hx : x = 0
+      · simp [hx, sumRat]
+      · simp [hx, sumRat, pick, this]
+    · have hi : i = n := by omega
+      subst hi
+      rw [sum_pick_colEntries_ge i m d j i (Nat.le_refl _)]
+      generalize d.getD (i * m + j) 0 = x
+      by_cases hx : x = 0
+      · simp [hx, sumRat]
+      · simp [hx, sumRat, pick]
+
+theorem map_range_getD {α β} (l : List α) (f : α → β) (dflt : α) :
+    (List.range l.length).map (fun q => f (l.getD q dflt)) = l.map f := by
+  apply List.ext_getElem
+  · simp
+  · intro k h1 h2
+    have : k < l.length := by simpa using h1
+    simp [List.getD_eq_getElem?_getD, this]
+
+theorem getD_map_natRat (l : List Nat) (j : Nat) :
+    (l.map natRat).getD j 0 = natRat (l.getD j 0) := by
+  simp only [List.getD_eq_getElem?_getD, List.getElem?_map]
+  cases l[j]? <;> simp [natRat]
+
+theorem cscToDense_denseToCsc (dt : String) (n m : Nat) (d : List Rat) (hd : d.length = n * m) :
+    cscToDense (denseToCsc ⟨dt, [n, m], d⟩) = ⟨dt, [n, m], d⟩ := by
+  -- names for the pieces of the CSC matrix
+  let cols := (List.range m).map (colEntries n m d)
+  have hcolsLen : cols.length = m := by simp [cols]
+  have hcol : ∀ j, j < m → cols.getD j [] = colEntries n m d j := by
+    intro j hj; simp [cols, List.getD_eq_getElem?_getD, hj]
+  have hptr : ∀ j, j ≤ m →
+      ratNat (((cumul 0 (cols.map List.length)).map natRat).getD j 0) = offset cols j := by
+    intro j hj
+    rw [getD_map_natRat, ratNat_natRat, cumul_getD _ _ _ (by simpa [hcolsLen] using hj)]
+    simp [offset, List.map_take]
+  simp only [cscToDense, denseToCsc, List.headD_cons, List.drop_succ_cons, List.drop_zero]
+  congr 1
+  apply List.ext_getElem
+  · simp [hd]
+  · intro k h1 h2
+    have hk : k < n * m := by simpa using h1
+    have hm : 0 < m := by
+      rcases Nat.eq_zero_or_pos m with h0 | h0
+      · simp [h0] at hk
+      · exact h0
+    have hj : k % m < m := Nat.mod_lt _ hm
+    have hi : k / m < n := Nat.div_lt_of_lt_mul (by rwa [Nat.mul_comm] at hk)
+    simp only [List.getElem_map, List.getElem_range]
+    rw [hptr (k % m + 1) (by omega), hptr (k % m) (by omega), offset_succ cols _ (by omega),
+      Nat.add_sub_cancel_left, hcol _ hj]
+    have hterm : ∀ q ∈ List.range (colEntries n m d (k % m)).length,
+        (if ((cols.flatten).map fun p => natRat p.1).getD (offset cols (k % m) + q) 0 = natRat (k / m)
+          then ((cols.flatten).map (·.2)).getD (offset cols (k % m) + q) 0 else 0) =
+        pick (k / m) ((colEntries n m d (k % m)).getD q (0, 0)) := by
+      intro q hq
+      have hq' : q < (cols.getD (k % m) []).length := by
+        rw [hcol _ hj]; simpa using hq
+      have hf := flatten_getElem? cols (k % m) q (by omega) hq'
+      rw [hcol _ hj] at hf
+      have hq2 : q < (colEntries n m d (k % m)).length := by simpa using hq
+      simp only [List.getD_eq_getElem?_getD, List.getElem?_map, hf, List.getElem?_eq_getElem hq2,
+        Option.map_some, Option.getD_some, pick, natRat_inj]
+    rw [List.map_congr_left hterm, map_range_getD _ (pick (k / m)) (0, 0),
+      sum_pick_colEntries n m d _ _ hi, Nat.div_add_mod' k m]
+    simp [List.getD_eq_getElem?_getD, h2]
+
 end HcipyVerif.Serial
